@@ -545,16 +545,35 @@ class E_gridcells:
         for csz in (0.0, -1.0, float("nan"), 1e-300, 1e300):
             yield {"f": "coord2cell", "shape": [2, 2], "cls": "finite", "n": 3, "w": 2, "csz": csz}
             yield {"f": "slice", "shape": [2, 2], "cls": "finite", "n": 3, "w": 2, "csz": csz}
+        # points on and one ulp inside / outside every edge, cell sizes that are not powers of two (the quotient
+        # (x - xll) / cellsize may round up to ncols although x < xll + ncols * cellsize): every ncols 1..20
+        for nc in range(1, 21 if tier == "quick" else 65):
+            for nr in (1, 3):
+                for csz in (0.1, 1.0 / 3, 0.7, 1e-3):
+                    for xll in (0.0, 0.5, -0.3):
+                        for f in ("coord2cell", "slice"):
+                            yield {"f": f, "shape": [nr, nc], "cls": "edges", "csz": csz, "xll": xll}
 
     @staticmethod
     def run(p):
         from hydrodiy.gis.grid import Grid
         nr, nc = p["shape"]
-        g = Grid("g", nc, nr, cellsize=p.get("csz", 1.0))
+        g = Grid("g", nc, nr, cellsize=p.get("csz", 1.0), xllcorner=p.get("xll", 0.0), yllcorner=p.get("xll", 0.0))
         g.data = np.arange(nr * nc, dtype=np.float64).reshape(nr, nc)
         ntot = nr * nc
         f = p["f"]
-        if f == "coord2cell":
+        if p["cls"] == "edges" if "cls" in p else False:
+            csz, ll = p["csz"], p["xll"]
+            xs, ys = [], []
+            for n_, out in ((nc, xs), (nr, ys)):
+                for e in (ll, ll + csz * n_, ll + csz * (n_ - 1), ll + csz):
+                    out += [e, float(np.nextafter(e, np.inf)), float(np.nextafter(e, -np.inf))]
+            pts = np.array([[x, y] for x in xs for y in ys], dtype=np.float64)
+            if f == "coord2cell":
+                g.coord2cell(pts)
+            else:
+                g.slice(pts)
+        elif f == "coord2cell":
             g.coord2cell(arr2(p["n"], p["w"], p["cls"]))
         elif f == "slice":
             g.slice(arr2(p["n"], p["w"], p["cls"]))
